@@ -456,13 +456,13 @@ func (g *Gen) handle(e *event) {
 		if pos < 0 {
 			return
 		}
-		g.do(Action{K: ADeliver, N: e.f.From, M: e.f.To, I: pos, B: e.keep})
+		g.do(Action{K: ADeliver, N: e.f.From, M: e.f.To, I: e.f.Seq, B: e.keep})
 	case evDrop:
 		pos := c.FlightPos(e.f)
 		if pos < 0 {
 			return
 		}
-		g.do(Action{K: ADrop, N: e.f.From, M: e.f.To, I: pos})
+		g.do(Action{K: ADrop, N: e.f.From, M: e.f.To, I: e.f.Seq})
 	case evAppendThread:
 		n := c.nodes[e.n]
 		g.gn[e.n].appendSched = false
@@ -879,7 +879,7 @@ func (g *Gen) fault() {
 				for _, to := range c.ids {
 					if c.blocked[linkKey{from, to}] {
 						for len(c.links[linkKey{from, to}]) > 0 {
-							g.do(Action{K: ADrop, N: from, M: to, I: 0})
+							g.do(Action{K: ADrop, N: from, M: to, I: c.links[linkKey{from, to}][0].Seq})
 						}
 					}
 				}
